@@ -8,6 +8,12 @@ def cfg(**kw):
 def D(n,tag,kind="text"): return {"len":n,"kind":kind,"tag":tag}
 O_RDONLY,O_WRONLY,O_RDWR,O_CREATE,O_EXCL,O_TRUNC,O_APPEND=0,1,2,64,128,512,1024
 F=[]
+import subprocess
+def resolve(pat):
+    # commit= holds a distinctive part of the fix commit's subject; resolve it to the current hash
+    out=subprocess.run(["git","-C","/repo","log","--format=%h %s","-F","--grep",pat],capture_output=True,text=True).stdout.strip().split("\n")
+    assert len(out)==1 and out[0], (pat,out)
+    return out[0].split()[0]
 def add(id,prop,status,oracle,what,ops=None,cfg_=None,commit=None,relax=None,also=None,seed=7,faults=None,params=None,progs=None,sparams=None):
     case={"prop":prop,"seed":seed,"cfg":cfg_ or PLAIN}
     if ops is not None: case["ops"]=ops
@@ -19,7 +25,7 @@ def add(id,prop,status,oracle,what,ops=None,cfg_=None,commit=None,relax=None,als
     fn=f"findings/{id}.json"
     json.dump(case,open("/verif/"+fn,"w"),indent=1)
     e={"id":id,"property":prop,"status":status,"oracle":oracle,"what":what,"replay":fn}
-    if commit: e["commit"]=commit
+    if commit is not None: e["commit"]=resolve(commit)
     if relax: e["relaxation"]=relax
     if also: e["also"]=also
     F.append(e)
@@ -31,43 +37,43 @@ add("KF1","C02","open","unexpected-failure:writefile",
 
 # ---- fixed findings (regression replays; they suppress nothing)
 add("F04","C13","fixed","orphan-entry","MkdirAll(\"/x/y/z\") created only the leaf, unreachable from the root",
-    ops=[{"k":"mkdirall","p":"/x/y/z","m":0o755}], commit="4d7333c")
+    ops=[{"k":"mkdirall","p":"/x/y/z","m":0o755}], commit="MkdirAll creates every missing")
 add("F05","C13","fixed","parent-not-directory","Mkdir below a regular file succeeded",
-    ops=[{"k":"writefile","p":"/f","d":D(3,1)},{"k":"mkdir","p":"/f/x","m":0o755}], commit="1a5b972")
+    ops=[{"k":"writefile","p":"/f","d":D(3,1)},{"k":"mkdir","p":"/f/x","m":0o755}], commit="refuse to create entries below a regular file")
 add("F06","C12","fixed","unexpected-success:rename","Rename of a directory into its own subtree succeeded",
-    ops=[{"k":"mkdir","p":"/a","m":0o755},{"k":"writefile","p":"/a/f","d":D(3,1)},{"k":"rename","p":"/a","q":"/a/b"}], commit="7dcfed8")
+    ops=[{"k":"mkdir","p":"/a","m":0o755},{"k":"writefile","p":"/a/f","d":D(3,1)},{"k":"rename","p":"/a","q":"/a/b"}], commit="refuse to rename a directory into its own subtree")
 add("F07","C01","fixed","rebuild-fails","Rename onto a name that was deleted earlier: UNIQUE constraint in MoveHeader, stale index, every later rebuild fails",
-    ops=[{"k":"writefile","p":"/a","d":D(5,1)},{"k":"writefile","p":"/b","d":D(3,2)},{"k":"remove","p":"/b"},{"k":"rename","p":"/a","q":"/b"},{"k":"mkdir","p":"/c","m":0o755}], commit="7354423")
+    ops=[{"k":"writefile","p":"/a","d":D(5,1)},{"k":"writefile","p":"/b","d":D(3,2)},{"k":"remove","p":"/b"},{"k":"rename","p":"/a","q":"/b"},{"k":"mkdir","p":"/c","m":0o755}], commit="moving onto a previously used name")
 add("F08","C02","fixed","tree-differs-after:rename","Rename onto an existing file removed the target and did not move the source",
-    ops=[{"k":"writefile","p":"/a","d":D(5,1)},{"k":"writefile","p":"/b","d":D(3,2)},{"k":"rename","p":"/a","q":"/b"}], commit="1832e06")
+    ops=[{"k":"writefile","p":"/a","d":D(5,1)},{"k":"writefile","p":"/b","d":D(3,2)},{"k":"rename","p":"/a","q":"/b"}], commit="Rename onto an existing entry replaces it")
 add("F09","C12","fixed","tree-differs-after:removeall","RemoveAll(\"/a_\") also deleted \"/ab/x\" (SQL LIKE wildcards in child lookup)",
-    ops=[{"k":"mkdir","p":"/a_","m":0o755},{"k":"mkdir","p":"/ab","m":0o755},{"k":"writefile","p":"/ab/x","d":D(3,1)},{"k":"removeall","p":"/a_"}], commit="63f50bc")
+    ops=[{"k":"mkdir","p":"/a_","m":0o755},{"k":"mkdir","p":"/ab","m":0o755},{"k":"writefile","p":"/ab/x","d":D(3,1)},{"k":"removeall","p":"/a_"}], commit="directory child lookups match the parent path literally")
 add("F10","C13","fixed","listing-vs-lookup","\"/d/a/d/d\" was listed as a child of \"/d\" (replace() removed every occurrence of the parent path)",
-    ops=[{"k":"mkdir","p":"/d","m":0o755},{"k":"mkdir","p":"/d/a","m":0o755},{"k":"mkdir","p":"/d/a/d","m":0o755},{"k":"mkdir","p":"/d/a/d/d","m":0o755}], commit="63f50bc")
+    ops=[{"k":"mkdir","p":"/d","m":0o755},{"k":"mkdir","p":"/d/a","m":0o755},{"k":"mkdir","p":"/d/a/d","m":0o755},{"k":"mkdir","p":"/d/a/d/d","m":0o755}], commit="directory child lookups match the parent path literally")
 add("F11","C01","fixed","rebuild-differs","symlinks were lost by an index rebuild (link path not sanitized like names)",
-    ops=[{"k":"mkdir","p":"/d","m":0o755},{"k":"symlink","p":"/d","q":"/d/b"}], commit="522424b")
+    ops=[{"k":"mkdir","p":"/d","m":0o755},{"k":"symlink","p":"/d","q":"/d/b"}], commit="symlinks survive an index rebuild")
 add("F12","C02","fixed","tree-differs-after:rename","Rename(\"/a\", \"/a\") deleted the entry",
-    ops=[{"k":"writefile","p":"/a","d":D(0,1)},{"k":"rename","p":"/a","q":"/a"}], commit="05b69bb")
+    ops=[{"k":"writefile","p":"/a","d":D(0,1)},{"k":"rename","p":"/a","q":"/a"}], commit="renaming an entry onto itself is a no-op")
 add("F13","C02","fixed","tree-differs-after:writefile","rewriting a file reset the owner set by Chown to 0:0",
-    ops=[{"k":"writefile","p":"/e","d":D(0,1)},{"k":"chown","p":"/e","u":1001,"g":101},{"k":"writefile","p":"/e","d":D(1,2)}], commit="4e5d5cb")
+    ops=[{"k":"writefile","p":"/e","d":D(0,1)},{"k":"chown","p":"/e","u":1001,"g":101},{"k":"writefile","p":"/e","d":D(1,2)}], commit="writing to a file keeps its owner")
 add("F14","C02","fixed","unexpected-failure:openfile","OpenFile(O_CREATE|O_EXCL) on a missing file returned not-exist",
-    ops=[{"k":"openfile","p":"/x","f":O_RDWR|O_CREATE|O_EXCL,"m":0o644,"h":1},{"k":"h.close","h":1}], commit="ce97881")
+    ops=[{"k":"openfile","p":"/x","f":O_RDWR|O_CREATE|O_EXCL,"m":0o644,"h":1},{"k":"h.close","h":1}], commit="OpenFile honours O_CREATE|O_EXCL")
 add("F15","C02","fixed","unexpected-failure:h.close","Sync closed the write buffer: every later call on the handle failed with 'file already closed'",
-    ops=[{"k":"create","p":"/b","h":1},{"k":"h.write","h":1,"d":D(4,1)},{"k":"h.sync","h":1},{"k":"h.close","h":1}], commit="91a868d")
+    ops=[{"k":"create","p":"/b","h":1},{"k":"h.write","h":1,"d":D(4,1)},{"k":"h.sync","h":1},{"k":"h.close","h":1}], commit="a file stays usable after Sync")
 add("F16","C02","fixed","tree-differs-after:writefile","a created-but-never-written file could not be read under gzip/bzip2/age/pgp (empty record fed to the decoders)",
-    ops=[{"k":"writefile","p":"/e","d":D(0,1)}], cfg_=cfg(comp="bzip2",lvl="smallest"), commit="eaf3944")
+    ops=[{"k":"writefile","p":"/e","d":D(0,1)}], cfg_=cfg(comp="bzip2",lvl="smallest"), commit="restoring a file that has no content record")
 add("F17","C02","fixed","tree-differs-after:h.close","Create/O_TRUNC on an existing file kept the old content unless something was written",
-    ops=[{"k":"writefile","p":"/d","d":D(9,1)},{"k":"create","p":"/d","h":2},{"k":"h.close","h":2}], commit="55024ef")
+    ops=[{"k":"writefile","p":"/d","d":D(9,1)},{"k":"create","p":"/d","h":2},{"k":"h.close","h":2}], commit="opening a file with O_TRUNC truncates it")
 add("F18","C14","fixed","count:readfile","memory write cache: a write beyond the end panicked, a write in the middle corrupted the file",
-    ops=[{"k":"writefile","p":"/f","d":D(100,1)},{"k":"openfile","p":"/f","f":O_RDWR,"m":0o644,"h":1},{"k":"h.writeat","h":1,"o":900,"d":D(5,2)},{"k":"h.close","h":1},{"k":"readfile","p":"/f"}], commit="4653920")
+    ops=[{"k":"writefile","p":"/f","d":D(100,1)},{"k":"openfile","p":"/f","f":O_RDWR,"m":0o644,"h":1},{"k":"h.writeat","h":1,"o":900,"d":D(5,2)},{"k":"h.close","h":1},{"k":"readfile","p":"/f"}], commit="the in-memory write cache writes in place")
 add("F19","C14","fixed","count:h.seek","read-mode Seek returned the bytes skipped, SeekEnd subtracted, first write restarted at offset 0",
-    ops=[{"k":"writefile","p":"/f","d":D(1000,1)},{"k":"openfile","p":"/f","f":O_RDWR,"m":0o644,"h":1},{"k":"h.read","h":1,"n":100},{"k":"h.seek","h":1,"o":50,"w":1},{"k":"h.seek","h":1,"o":-10,"w":2},{"k":"h.write","h":1,"d":D(4,2)},{"k":"h.close","h":1},{"k":"readfile","p":"/f"}], commit="3f6b30d")
+    ops=[{"k":"writefile","p":"/f","d":D(1000,1)},{"k":"openfile","p":"/f","f":O_RDWR,"m":0o644,"h":1},{"k":"h.read","h":1,"n":100},{"k":"h.seek","h":1,"o":50,"w":1},{"k":"h.seek","h":1,"o":-10,"w":2},{"k":"h.write","h":1,"d":D(4,2)},{"k":"h.close","h":1},{"k":"readfile","p":"/f"}], commit="Seek reports the new offset")
 add("F20","C14","fixed","data:readfile","growing a file with Truncate zeroed its old content",
-    ops=[{"k":"writefile","p":"/f","d":D(100,1)},{"k":"openfile","p":"/f","f":O_RDWR,"m":0o644,"h":1},{"k":"h.truncate","h":1,"o":200},{"k":"h.close","h":1},{"k":"readfile","p":"/f"}], cfg_=cfg(cache="file"), commit="bd5efa1")
+    ops=[{"k":"writefile","p":"/f","d":D(100,1)},{"k":"openfile","p":"/f","f":O_RDWR,"m":0o644,"h":1},{"k":"h.truncate","h":1,"o":200},{"k":"h.close","h":1},{"k":"readfile","p":"/f"}], cfg_=cfg(cache="file"), commit="growing a file with Truncate keeps its content")
 add("F21","C14","fixed","count:h.seek","Sync left the cursor at the end of the write buffer",
-    ops=[{"k":"writefile","p":"/f","d":D(16,1)},{"k":"openfile","p":"/f","f":O_RDWR|O_CREATE,"m":0o644,"h":1},{"k":"h.write","h":1,"d":D(1,2)},{"k":"h.sync","h":1},{"k":"h.seek","h":1,"o":3,"w":1},{"k":"h.close","h":1}], commit="6b5b0f9")
+    ops=[{"k":"writefile","p":"/f","d":D(16,1)},{"k":"openfile","p":"/f","f":O_RDWR|O_CREATE,"m":0o644,"h":1},{"k":"h.write","h":1,"d":D(1,2)},{"k":"h.sync","h":1},{"k":"h.seek","h":1,"o":3,"w":1},{"k":"h.close","h":1}], commit="Sync keeps the file position")
 add("F22","C14","fixed","info:h.stat","O_APPEND handle: a write after Seek overwrote data instead of appending",
-    ops=[{"k":"writefile","p":"/f","d":D(0,1)},{"k":"openfile","p":"/f","f":O_WRONLY|O_APPEND,"m":0o644,"h":1},{"k":"h.writestring","h":1,"d":D(1,2)},{"k":"h.seek","h":1,"o":0,"w":0},{"k":"h.writestring","h":1,"d":D(1,3)},{"k":"h.stat","h":1},{"k":"h.close","h":1}], commit="4f600bc")
+    ops=[{"k":"writefile","p":"/f","d":D(0,1)},{"k":"openfile","p":"/f","f":O_WRONLY|O_APPEND,"m":0o644,"h":1},{"k":"h.writestring","h":1,"d":D(1,2)},{"k":"h.seek","h":1,"o":0,"w":0},{"k":"h.writestring","h":1,"d":D(1,3)},{"k":"h.stat","h":1},{"k":"h.close","h":1}], commit="O_APPEND writes always go to the end")
 if False:
     c=json.load(open("/tmp/c14-198.json"))
     json.dump(c,open("/verif/findings/F23.json","w"),indent=1)
@@ -78,5 +84,10 @@ if os.path.exists("/verif/findings/F23.json"):
 extra="/verif/tools/findings_extra.py"
 if os.path.exists(extra): exec(open(extra).read())
 
+for e in F:
+    if e["status"]=="fixed":
+        e["record"]="fixed: property=%s %s %s" % (e["property"], e.get("commit","?"), e["what"])
+    else:
+        e["record"]="KNOWN-FINDING: property=%s %s: %s" % (e["property"], e["id"], e["what"])
 json.dump({"_comment":"Genuine defects of pojntfx/stfs found by the checks. 'open' entries are still present in /repo: the check replays the entry's file first, prints KNOWN-FINDING while it still fails and only then activates the named relaxation. 'fixed' entries were repaired by the named fix: commit in /repo; their replay is a regression test that suppresses nothing. This file is only read at run time.","findings":F},open("/verif/known_findings.json","w"),indent=1)
 print(len(F),"findings")
